@@ -291,4 +291,120 @@ Proof.
   unfold fail. cbn [snd]. unfold has_kill. rewrite existsb_app. cbn. rewrite ?orb_true_r. reflexivity.
 Qed.
 
+(* ---- from the bytes on stdout to the line: what the host's scanner hands to the parser *)
+Definition no_nl (b : bytes) : bool := forallb (fun c => negb (N.eqb c 10)) b.
+
+Lemma take_line_app (l : bytes) rest : forall acc, no_nl l = true -> take_line (l ++ 10%N :: rest) acc = Some (frev acc ++ l).
+Proof.
+  induction l as [|c l IH]; intros acc H; cbn [app take_line].
+  - rewrite app_nil_r. reflexivity.
+  - cbn [no_nl forallb] in H. apply andb_true_iff in H. destruct H as [Hc Hl].
+    destruct (N.eqb c 10); [discriminate|]. rewrite IH by exact Hl. rewrite frev_cons, <- app_assoc. reflexivity.
+Qed.
+
+Lemma match13 {A} (c : N) (x y : A) : c <> 13%N -> match c with 13%N => x | _ => y end = y.
+Proof.
+  intros H. destruct c as [|p]; [reflexivity|].
+  destruct p as [p|p|]; try reflexivity. destruct p as [p|p|]; try reflexivity.
+  destruct p as [p|p|]; try reflexivity. destruct p as [p|p|]; try reflexivity.
+  exfalso. apply H. reflexivity.
+Qed.
+
+Lemma scan_first_line (l : bytes) rest t :
+  no_nl l = true -> (match frev l with 13%N :: _ => False | _ => True end) -> (blen l < max_token)%N ->
+  scan_first (l ++ 10%N :: rest) t = SLine l.
+Proof.
+  intros Hn Hcr Hlen. unfold scan_first. rewrite take_line_app by exact Hn. cbn [frev rev_append app].
+  destruct (N.ltb_spec (blen l) max_token); [|lia]. unfold drop_cr.
+  destruct (frev l) as [|c r]; [reflexivity|].
+  destruct (N.eq_dec c 13) as [->|Hc]; [contradiction|]. f_equal. apply match13. exact Hc.
+Qed.
+
+Lemma no_nl_app a b : no_nl (a ++ b) = no_nl a && no_nl b.
+Proof. apply forallb_app. Qed.
+
+Lemma no_nl_join (fs : list bytes) : forallb no_nl fs = true -> no_nl (join [124%N] fs) = true.
+Proof.
+  induction fs as [|f fs IH]; intros H; [reflexivity|]. cbn [forallb] in H. apply andb_true_iff in H. destruct H as [Hf Hr].
+  destruct fs as [|g r]; [exact Hf|]. rewrite join_cons_cons, !no_nl_app, Hf, IH by exact Hr. reflexivity.
+Qed.
+
+Lemma dec_chars_no_nl b : forallb dec_char b = true -> no_nl b = true.
+Proof.
+  intros H. unfold no_nl. rewrite forallb_forall in *. intros c Hc. specialize (H c Hc).
+  apply dec_char_plain in H. unfold plain_byte, ascii_space in H. apply negb_true_iff, N.eqb_neq. intros ->. discriminate.
+Qed.
+
+Lemma plain_no_nl b : forallb plain_byte b = true -> no_nl b = true.
+Proof.
+  intros H. unfold no_nl. rewrite forallb_forall in *. intros c Hc. specialize (H c Hc).
+  unfold plain_byte, ascii_space in H. apply negb_true_iff, N.eqb_neq. intros ->. discriminate.
+Qed.
+
+Lemma no_cr_at_end (fs : list bytes) (t : bytes) : fs <> [] -> forallb plain_byte t = true ->
+  match frev (join [124%N] (fs ++ [t])) with 13%N :: _ => False | _ => True end.
+Proof.
+  intros Hne Ht. destruct (join_last fs t Hne) as (pre & ->). rewrite frev_rev, rev_app_distr. cbn [rev].
+  destruct (rev t) as [|c r] eqn:ER; [cbn [app]; exact I|].
+  rewrite <- app_assoc. cbn [app].
+  assert (Hc : plain_byte c = true).
+  { rewrite forallb_forall in Ht. apply Ht. apply in_rev. rewrite ER. left. reflexivity. }
+  assert (N13 : c <> 13%N) by (intros ->; discriminate Hc).
+  rewrite (match13 c False True N13). exact I.
+Qed.
+
+(* the host reads exactly the printed line back from the plugin's stdout (Printf adds the newline; anything may follow) *)
+Lemma serve_line_scanned sc env addr cert v p sset rest t :
+  gate_ok sc env = true ->
+  server_pick (sv_serve sc) (getenv env (bs "PLUGIN_PROTOCOL_VERSIONS")) = (v, p, sset) ->
+  no_nl addr = true -> forallb plain_byte cert = true ->
+  exists line, serve Ps sc env addr cert = [SvListen; SvPrint line; SvSwapStdio] /\
+    ((blen line < max_token)%N -> scan_first (line ++ 10%N :: rest) t = SLine line).
+Proof.
+  intros Hgate Hpick Han Hcp.
+  unfold gate_ok in Hgate. unfold serve.
+  destruct (sv_key sc) as [|k0 k]; cbn [negb andb orb] in *; [discriminate|].
+  destruct (sv_value sc) as [|v0 vv]; cbn [negb andb orb] in *; [discriminate|].
+  rewrite Hgate. cbn [negb]. rewrite Hpick.
+  fold (proto_bytes p). fold (line_fields env addr cert v p).
+  eexists. split; [reflexivity|]. intros Hlen. apply scan_first_line; [| |exact Hlen].
+  - apply no_nl_join. unfold line_fields.
+    assert (PN : no_nl (proto_bytes p) = true) by (destruct p; reflexivity).
+    destruct (getenv env (svp_mux_key Ps)); cbn [app forallb];
+      rewrite !(dec_chars_no_nl _ (itoa_chars _)), Han, PN, (plain_no_nl _ Hcp); reflexivity.
+  - (* the last byte is the last byte of the last field, or the separator: never a carriage return *)
+    unfold line_fields. destruct (getenv env (svp_mux_key Ps)).
+    + rewrite app_nil_r.
+      change [itoa (svp_core Ps); itoa v; bs "unix"; addr; proto_bytes p; cert] with ([itoa (svp_core Ps); itoa v; bs "unix"; addr; proto_bytes p] ++ [cert]).
+      apply no_cr_at_end; [discriminate|exact Hcp].
+    + apply no_cr_at_end; [discriminate|reflexivity].
+Qed.
+
+(* END TO END: the bytes a conforming plugin writes to stdout, as the host's Start sees them through its scanner *)
+Theorem start_agreement sc env addr cert hc o v p sset cset :
+  gate_ok sc env = true ->
+  server_pick (sv_serve sc) (getenv env (bs "PLUGIN_PROTOCOL_VERSIONS")) = (v, p, sset) -> in64 v ->
+  no_bar addr = true -> no_nl addr = true -> no_bar cert = true -> forallb plain_byte cert = true ->
+  mget (client_map (h_client hc)) v = Some cset ->
+  o_translate_ok o = true -> (bytes_eqb (o_net o) (bs "tcp") || bytes_eqb (o_net o) (bs "unix")) = true -> o_resolves o = true ->
+  mem_bytes (proto_bytes p) (h_allowed hc) = true ->
+  ((hp_cert_len Ph < List.length cert)%nat -> o_cert_parses o = true /\ h_has_tls hc = true) ->
+  (h_mux hc = true -> p = PGrpc -> getenv env (svp_mux_key Ps) <> []) ->
+  exists line, serve Ps sc env addr cert = [SvListen; SvPrint line; SvSwapStdio] /\
+    ((blen line < max_token)%N -> forall rest t, exists eff,
+       start_after_launch Ph hc o (line ++ 10%N :: rest) t =
+         [(OOk {| a_net := o_net o; a_addr := o_canon o; a_resolved := true; a_proto := proto_bytes p; a_version := v; a_set := ps_id cset |}, eff)]
+       /\ has_kill eff = false).
+Proof.
+  intros Hgate Hpick Hv64 Hab Han Hcb Hcp Hcl Htr Hnet Hres Hallow Hcert Hmux.
+  destruct (handshake_agreement sc env addr cert hc o v p sset cset Hgate Hpick Hv64 Hab Hcb Hcp Hcl Htr Hnet Hres Hallow Hcert Hmux) as (line & Hs & Hok).
+  exists line. split; [exact Hs|]. intros Hlen rest t.
+  destruct (serve_line_scanned sc env addr cert v p sset rest t Hgate Hpick Han Hcp) as (line' & Hs' & Hscan).
+  rewrite Hs in Hs'. inversion Hs'; subst line'. specialize (Hscan Hlen).
+  unfold start_after_launch. rewrite Hscan.
+  pose proof (process_line_kill Ph Hguard hc o line) as HK.
+  destruct (process_line Ph hc o line) as [oc eff]. cbn [fst snd] in *. subst oc.
+  exists eff. split; [reflexivity|exact HK].
+Qed.
+
 End Agree.
